@@ -49,7 +49,7 @@ pub struct InstanceRegisterParam {
 
 /// serde_json writes a non-finite f32 (`weight=NaN` is accepted by the open api) as `null`.
 /// Read it back as NaN: a raft log entry that was written must stay readable.
-fn deserialize_weight<'de, D>(deserializer: D) -> Result<f32, D::Error>
+pub(crate) fn deserialize_weight<'de, D>(deserializer: D) -> Result<f32, D::Error>
 where
     D: serde::Deserializer<'de>,
 {
